@@ -71,6 +71,17 @@ pub fn notable_values(key: &str, width: usize) -> Vec<u64> {
             }
         }
     }
+    if key == "longitude" || key == "latitude" {
+        // 181 / 91 / 180 / 90 degrees written in every unit a table might use (degrees, 1/10,
+        // minutes, 1/100, 1/10 minute, 1/1000 ... 1/10000 minute)
+        for deg in [181u64, 91, 180, 90] {
+            for scale in [1u64, 10, 60, 100, 600, 1000, 6000, 10_000, 60_000, 100_000, 600_000] {
+                let x = deg * scale;
+                v.push(x & max);
+                v.push(x.wrapping_neg() & max);
+            }
+        }
+    }
     if width == 30 && (key.contains("mmsi") || key.contains("station")) {
         v.extend(gen::SPECIAL_MMSI.iter().map(|m| *m as u64));
     }
